@@ -9,6 +9,20 @@ class Unsupported(Exception):
     pass
 
 
+class ArrayTruth(Exception):
+    """A model array was compared / used where real numpy would yield an array with no truth value."""
+
+
+class ArrayModel(object):
+    """Stands for a numpy array with more than one element (only its 'is it a number' answer is modelled)."""
+
+    def __repr__(self):
+        return '<array>'
+
+
+NUMBER_TYPES = {'Number', 'Real', 'Complex', 'float', 'int', 'complex'}
+
+
 CMP = {ast.Eq: operator.eq, ast.NotEq: operator.ne, ast.Lt: operator.lt, ast.LtE: operator.le, ast.Gt: operator.gt,
        ast.GtE: operator.ge, ast.Is: operator.is_, ast.IsNot: operator.is_not,
        ast.In: lambda a, b: a in b, ast.NotIn: lambda a, b: a not in b}
@@ -39,7 +53,13 @@ def ev(node, env):
     if isinstance(node, ast.Name):
         if node.id in env:
             return env[node.id]
+        mod = env.get('__module__')
+        if mod is not None and len(mod.assigns.get(node.id, [])) == 1:
+            return ev(mod.assigns[node.id][0], {'__module__': mod})
         raise Unsupported('name %s' % node.id)
+    if isinstance(node, ast.Attribute) and node.attr in ('inf', 'infty', 'Inf', 'Infinity') and isinstance(node.value, ast.Name) \
+            and node.value.id in ('np', 'numpy', 'math'):
+        return float('inf')
     if isinstance(node, (ast.List, ast.Tuple, ast.Set)):
         vals = [ev(e, env) for e in node.elts]
         return vals if isinstance(node, ast.List) else (tuple(vals) if isinstance(node, ast.Tuple) else set(vals))
@@ -83,6 +103,8 @@ def ev(node, env):
             right = ev(c, env)
             if type(op) not in CMP:
                 raise Unsupported('comparison')
+            if (isinstance(left, ArrayModel) or isinstance(right, ArrayModel)) and not isinstance(op, (ast.Is, ast.IsNot)):
+                raise ArrayTruth()
             try:
                 if not CMP[type(op)](left, right):
                     return False
@@ -97,12 +119,50 @@ def ev(node, env):
         if isinstance(a, (int, float)) and isinstance(b, (int, float)) and not isinstance(a, bool) and not isinstance(b, bool):
             return a + b
         raise Unsupported('addition of model values')
+    if isinstance(node, ast.BinOp) and isinstance(node.op, ast.Sub):
+        a, b = ev(node.left, env), ev(node.right, env)
+        if isinstance(a, (int, float)) and isinstance(b, (int, float)) and not isinstance(a, bool) and not isinstance(b, bool):
+            return a - b
+        if not (isinstance(a, (set, frozenset)) and isinstance(b, (set, frozenset))):
+            raise Unsupported('subtraction of model values')
+        return a - b
     if isinstance(node, ast.BinOp) and type(node.op) in BIN:
         a, b = ev(node.left, env), ev(node.right, env)
         if isinstance(a, (set, frozenset)) and isinstance(b, (set, frozenset)):
             return BIN[type(node.op)](a, b)
         raise Unsupported('binary operator on non-sets')
     if isinstance(node, ast.Call):
+        # model callables supplied by the checker (by local name or by dotted text)
+        target = None
+        if isinstance(node.func, ast.Name) and callable(env.get(node.func.id)):
+            target = env[node.func.id]
+        elif isinstance(node.func, ast.Attribute) and callable(env.get(ast.unparse(node.func))):
+            target = env[ast.unparse(node.func)]
+        if target is not None:
+            if any(isinstance(a, ast.Starred) for a in node.args) or any(k.arg is None for k in node.keywords):
+                raise Unsupported('star arguments')
+            return target(*[ev(a, env) for a in node.args], **{k.arg: ev(k.value, env) for k in node.keywords})
+        if isinstance(node.func, ast.Name) and node.func.id == 'isinstance' and len(node.args) == 2 and '__isinstance__' in env:
+            tn = [ast.unparse(t).split('.')[-1] for t in (node.args[1].elts if isinstance(node.args[1], ast.Tuple) else [node.args[1]])]
+            res = env['__isinstance__'](ev(node.args[0], env), tn)
+            if res is not None:
+                return res
+        if isinstance(node.func, ast.Name) and node.func.id in ('zip', 'enumerate', 'range', 'reversed', 'iter') \
+                and node.func.id not in env:
+            args = [ev(a, env) for a in node.args]
+            kw = {k.arg: ev(k.value, env) for k in node.keywords}
+            try:
+                if node.func.id == 'zip' and not kw:
+                    return list(zip(*args))
+                if node.func.id == 'enumerate' and set(kw) <= {'start'}:
+                    return list(enumerate(*args, **kw))
+                if node.func.id == 'range' and not kw:
+                    return list(range(*args))
+                if node.func.id in ('reversed', 'iter') and not kw and len(args) == 1:
+                    return list(reversed(args[0])) if node.func.id == 'reversed' else list(args[0])
+            except TypeError:
+                raise Unsupported(node.func.id)
+            raise Unsupported(node.func.id)
         if isinstance(node.func, ast.Name) and node.func.id in ('set', 'list', 'frozenset', 'sorted', 'tuple') and not node.keywords:
             if not node.args:
                 return {'set': set(), 'list': [], 'frozenset': frozenset(), 'sorted': [], 'tuple': ()}[node.func.id]
@@ -111,6 +171,35 @@ def ev(node, env):
                 return {'set': set, 'list': list, 'frozenset': frozenset, 'sorted': sorted, 'tuple': tuple}[node.func.id](v)
             except TypeError:
                 raise Unsupported('conversion')
+        if isinstance(node.func, ast.Name) and node.func.id == 'float' and len(node.args) == 1 and not node.keywords:
+            v = ev(node.args[0], env)
+            try:
+                return float(v)
+            except (TypeError, ValueError):
+                raise Unsupported('float()')
+        if isinstance(node.func, ast.Name) and node.func.id in ('any', 'all') and len(node.args) == 1 and not node.keywords:
+            vals = ev(node.args[0], env)
+            return any(vals) if node.func.id == 'any' else all(vals)
+        if isinstance(node.func, ast.Name) and node.func.id == 'abs' and len(node.args) == 1:
+            v = ev(node.args[0], env)
+            if isinstance(v, (int, float)) and not isinstance(v, bool):
+                return abs(v)
+            raise Unsupported('abs of a non-number')
+        if isinstance(node.func, (ast.Name, ast.Attribute)) and (node.func.id if isinstance(node.func, ast.Name) else node.func.attr) \
+                in ('isinf', 'isfinite', 'isnan') and len(node.args) == 1:
+            import math
+            v = ev(node.args[0], env)
+            if isinstance(v, ArrayModel):
+                raise ArrayTruth()
+            if isinstance(v, (int, float)) and not isinstance(v, bool):
+                return getattr(math, node.func.id if isinstance(node.func, ast.Name) else node.func.attr)(v)
+            raise Unsupported('isinf of a non-number')
+        if isinstance(node.func, ast.Name) and node.func.id == 'isinstance' and len(node.args) == 2:
+            tnames = [ast.unparse(t).split('.')[-1] for t in (node.args[1].elts if isinstance(node.args[1], ast.Tuple) else [node.args[1]])]
+            if all(t in NUMBER_TYPES | {'str'} for t in tnames):
+                v = ev(node.args[0], env)
+                isnum = isinstance(v, (int, float, complex)) and not isinstance(v, bool)
+                return (isnum and any(t in NUMBER_TYPES for t in tnames)) or (isinstance(v, str) and 'str' in tnames)
         if isinstance(node.func, ast.Name) and node.func.id == 'len' and len(node.args) == 1:
             return len(ev(node.args[0], env))
         if isinstance(node.func, ast.Name) and node.func.id == 'bool' and len(node.args) == 1:
@@ -138,15 +227,20 @@ def ev(node, env):
             except TypeError:
                 raise Unsupported('set method arguments')
         raise Unsupported('call %s' % ast.unparse(node)[:40])
-    if isinstance(node, (ast.ListComp, ast.SetComp, ast.GeneratorExp)) and len(node.generators) == 1 \
-            and isinstance(node.generators[0].target, (ast.Name, ast.Tuple)):
-        g = node.generators[0]
+    if isinstance(node, (ast.ListComp, ast.SetComp, ast.GeneratorExp)):
         out = []
-        for item in ev(g.iter, env):
-            e2 = dict(env)
-            _bind(g.target, item, e2)
-            if all(ev(c, e2) for c in g.ifs):
-                out.append(ev(node.elt, e2))
+
+        def gen(i, e):
+            if i == len(node.generators):
+                out.append(ev(node.elt, e))
+                return
+            g = node.generators[i]
+            for item in ev(g.iter, e):
+                e2 = dict(e)
+                _bind(g.target, item, e2)
+                if all(ev(c, e2) for c in g.ifs):
+                    gen(i + 1, e2)
+        gen(0, env)
         return set(out) if isinstance(node, ast.SetComp) else out
     if isinstance(node, ast.IfExp):
         return ev(node.body, env) if ev(node.test, env) else ev(node.orelse, env)
@@ -166,9 +260,43 @@ def _bind(target, value, env):
         raise Unsupported('assignment target')
 
 
+class ModelRaise(Exception):
+    def __init__(self, stmt):
+        Exception.__init__(self, 'raise')
+        self.stmt = stmt
+
+
+class _Return(Exception):
+    def __init__(self, value, stmt):
+        Exception.__init__(self, 'return')
+        self.value = value
+        self.stmt = stmt
+
+
+def call(fn_node, env):
+    """Run a function body on model values: ('return', value, stmt) | ('fall', None, None); ModelRaise propagates."""
+    try:
+        run(fn_node.body, env)
+    except _Return as r:
+        return 'return', r.value, r.stmt
+    return 'fall', None, None
+
+
 def run(stmts, env):
     """Execute a straight-line/loop fragment on model values (the checker's own interpretation)."""
     for s in stmts:
+        if isinstance(s, ast.Return):
+            raise _Return(ev(s.value, env) if s.value is not None else None, s)
+        if isinstance(s, ast.Raise):
+            raise ModelRaise(s)
+        if isinstance(s, ast.AugAssign) and isinstance(s.target, ast.Name) and isinstance(s.op, (ast.Add, ast.Sub)):
+            cur = ev(s.target, env)
+            if isinstance(cur, (int, float)) and not isinstance(cur, bool):
+                val = ev(s.value, env)
+                if not (isinstance(val, (int, float)) and not isinstance(val, bool)):
+                    raise Unsupported('augmented assignment')
+                env[s.target.id] = cur + val if isinstance(s.op, ast.Add) else cur - val
+                continue
         if isinstance(s, ast.Pass) or (isinstance(s, ast.Expr) and isinstance(s.value, ast.Constant)):
             continue
         if isinstance(s, ast.Assign) and len(s.targets) == 1:
